@@ -37,6 +37,8 @@ struct ArpFrame {
     target_ip: [u8; 4],
     dest: Option<u64>,
     copies: u32,
+    /// arrival time of the first delivered copy
+    arrives_ms: u64,
 }
 
 impl E2Run for ArpRes {
@@ -63,6 +65,11 @@ impl E2Run for ArpRes {
             let m_rep = sim::choose(11u64.saturating_sub(k_req as u64)) as u32;
             let random_loss_pm = if mode == 3 || thorough { *[0u64, 100, 300, 600].get(sim::choose(4) as usize).unwrap() } else { 0 };
             let delay_pm = if mode >= 2 { 500 } else { 0 };
+            // in the random mode some runs hold frames back for longer than the 200 ms between two requests
+            let max_delay = if mode == 3 && sim::chance(1, 2) { 700 } else { 90 };
+            if max_delay > 90 {
+                sim::count("probe_runs_with_delays_beyond_the_resend_interval");
+            }
             let dup_pm = if mode == 3 { 150 } else { 0 };
             *p2.lock().unwrap() = (mode <= 2 && random_loss_pm == 0, k_req, m_rep);
             let arp_type = TypeId::of::<Arp>();
@@ -105,13 +112,15 @@ impl E2Run for ArpRes {
                         if delay_pm > 0 {
                             let v = s.draw(1000);
                             if v != 0 && v <= delay_pm {
-                                c.delay = Duration::from_millis(1 + s.draw(90));
+                                c.delay = Duration::from_millis(1 + s.draw(max_delay));
                             }
                         }
                     }
                 }
+                let now = s.start.elapsed().as_millis() as u64;
                 frames_log.lock().unwrap().push(ArpFrame {
-                    time_ms: s.start.elapsed().as_millis() as u64,
+                    arrives_ms: copies.iter().map(|c| now + c.delay.as_millis() as u64).min().unwrap_or(u64::MAX),
+                    time_ms: now,
                     request,
                     sender_mac: pkt.sender_mac,
                     sender_ip: pkt.sender_ip.to_bytes(),
@@ -325,12 +334,21 @@ impl E2Run for ArpRes {
                     }
                     // must succeed when an exchange of this resolver got through in time
                     let my_mac = claims.get(&r.local).map(|c| c.1).unwrap_or(u64::MAX);
-                    let req_through = frames.iter().any(|f| {
-                        f.request && f.sender_mac == my_mac && f.target_ip == r.effective && f.copies > 0 && f.time_ms >= r.start_ms && f.time_ms <= r.start_ms + 1800
-                    });
+                    // a request of this resolver that arrived, and a reply sent after that arrival
+                    // which itself arrived before the resolver's 2000 ms were over
+                    let first_req_arrival = frames
+                        .iter()
+                        .filter(|f| f.request && f.sender_mac == my_mac && f.target_ip == r.effective && f.copies > 0 && f.time_ms >= r.start_ms)
+                        .map(|f| f.arrives_ms)
+                        .min();
+                    let req_through = first_req_arrival.map(|t| t <= r.start_ms + 1800).unwrap_or(false);
                     let rep_through = frames.iter().any(|f| {
-                        // (frame delays are at most 90 ms: a reply sent by 1900 ms is there before the 2000 ms deadline)
-                        !f.request && f.sender_ip == r.effective && f.dest == Some(my_mac) && f.copies > 0 && f.time_ms >= r.start_ms && f.time_ms <= r.start_ms + 1900
+                        !f.request
+                            && f.sender_ip == r.effective
+                            && f.dest == Some(my_mac)
+                            && f.copies > 0
+                            && Some(f.time_ms) >= first_req_arrival
+                            && f.arrives_ms <= r.start_ms + 1950
                     });
                     // concurrent resolvers of one address share the table: when an earlier one
                     // gives up it caches the failure for all of them, so only the earliest
